@@ -361,3 +361,33 @@ def local_used(fn, l):
             if "rv" in st and mentions(st["rv"]):
                 out.append(node)
     return out
+
+
+def for_loops(fn):
+    """[(next_call, switch, none_labels, some_labels)] for every `for` loop (Iterator::next in a ForLoop desugaring)"""
+    out = []
+    for c in fn.calls(r"Iterator>?::next$|::next$"):
+        if not (c.ex and any(e == "d:ForLoop" for e in c.ex)):
+            continue
+        for sw in fn.discr_switches():
+            if sw[1] and c.dest and sw[1][0] == c.dest[0] and len(sw[1]) == 1:
+                out.append((c, sw, fn.variant_edges(sw, "None"), fn.variant_edges(sw, "Some")))
+    return out
+
+
+def loop_left_early(fn, loop):
+    """a node of the code after the loop (a call, or a write of the return place) that the loop body reaches without asking the
+    iterator again: `break` (or an equivalent jump) leaves the remaining items unprocessed.  None if there is no such node."""
+    c, sw, none_l, some_l = loop
+    after = fn.reach([n for n, l in fn.succs(sw[0]) if l in none_l])
+    body = fn.reach([n for n, l in fn.succs(sw[0]) if l in some_l], avoid=[c.node])
+    for n in sorted(after & body):
+        if fn.is_term(n):
+            t = fn.term(n[0])
+            if t["k"] == "call" and not fn.call_at(n).from_macro:
+                return n
+        else:
+            st = fn.stmt(n)
+            if st.get("lhs") and st["lhs"][0] == 0:
+                return n
+    return None
